@@ -5,6 +5,8 @@ package downsampleutil
 
 import (
 	"fmt"
+	"go/ast"
+	"go/token"
 	"io"
 	"math"
 	"math/rand"
@@ -183,9 +185,102 @@ func WindowFacts(repo string, w io.Writer) error {
 		fmt.Fprintf(w, "(* %s: batchSize := %s *)\n", f.fn, s.ExprString(e))
 		fmt.Fprintf(w, "Definition %s (len_%s numChunks : Z) : Z :=\n  let len_of := fun _ : Z => len_%s in let %s := 0 in\n  %s.\n\n", f.coq, f.arg, f.arg, f.arg, x)
 	}
+	// one-line decision: the comparison of the batch-extension loop of downsampleRawLoop
+	// (`for ; j < len(data) && data[j].t <= curW; j++ {}`), operator taken from the source
+	op, cond, err := extensionLoopCmp(s)
+	if err != nil {
+		return err
+	}
+	fmt.Fprintf(w, "(* downsampleRawLoop: extension loop condition: %s *)\n", cond)
+	fmt.Fprintf(w, "Definition ext_take (t curW : Z) : bool := (t %s curW).\n\n", op)
 	fmt.Fprintf(w, "Definition ResLevel1 : Z := %d.\n", downsample.ResLevel1)
 	fmt.Fprintf(w, "Definition ResLevel2 : Z := %d.\n", downsample.ResLevel2)
 	return nil
+}
+
+// extensionLoopCmp finds, in downsampleRawLoop, the for loop without body whose condition is
+// `j < len(data) && data[j].t OP curW` and returns OP as a Coq boolean comparison on Z.
+func extensionLoopCmp(s *common.SrcFile) (op, cond string, err error) {
+	fd, err := s.FindFunc("downsampleRawLoop")
+	if err != nil {
+		return "", "", err
+	}
+	ast.Inspect(fd.Body, func(n ast.Node) bool {
+		fs, ok := n.(*ast.ForStmt)
+		if !ok || fs.Cond == nil || op != "" {
+			return true
+		}
+		and, ok := fs.Cond.(*ast.BinaryExpr)
+		if !ok || and.Op != token.LAND {
+			return true
+		}
+		cmp, ok := and.Y.(*ast.BinaryExpr)
+		if !ok || s.ExprString(cmp.X) != "data[j].t" || s.ExprString(cmp.Y) != "curW" {
+			return true
+		}
+		switch cmp.Op {
+		case token.LEQ:
+			op = "<=?"
+		case token.LSS:
+			op = "<?"
+		case token.GEQ:
+			op = ">=?"
+		case token.GTR:
+			op = ">?"
+		case token.EQL:
+			op = "=?"
+		}
+		cond = s.ExprString(fs.Cond)
+		return true
+	})
+	if op == "" {
+		return "", "", fmt.Errorf("srcfacts: downsampleRawLoop: extension loop `data[j].t <op> curW` not found")
+	}
+	return op, cond, nil
+}
+
+// GenWindowEnds draws a series with k samples per window of resolution res, the last of them
+// exactly on the window's last millisecond (t = res-1 mod res), for nWin consecutive windows
+// (some skipped): wherever downsampleRawLoop cuts a batch, the rest of the window — ending with
+// a sample ON the inclusive window end — has to be pulled into the batch.
+func GenWindowEnds(r *rand.Rand, res int64, nWin int) []RawS {
+	base := common.Pick(r, int64(0), 7, 1600000000000/res) * res
+	var out []RawS
+	for w := 0; w < nWin; w++ {
+		start := base + int64(w)*res
+		if res >= 4 && r.Intn(12) == 0 {
+			continue // empty window
+		}
+		k := 1 + r.Intn(3)
+		if res < 4 {
+			k = 1
+		}
+		var ts []int64
+		for i := 0; i < k-1; i++ {
+			ts = append(ts, start+1+r.Int63n(res-2))
+		}
+		for i := range ts { // sort the few in-window offsets
+			for j := i + 1; j < len(ts); j++ {
+				if ts[j] < ts[i] {
+					ts[i], ts[j] = ts[j], ts[i]
+				}
+			}
+		}
+		prev := int64(-1)
+		for _, t := range ts {
+			if t == prev {
+				continue
+			}
+			prev = t
+			s := RawS{T: t, V: int64(r.Intn(2001)) - 1000}
+			if r.Intn(15) == 0 {
+				s.V, s.K = 0, "nan"
+			}
+			out = append(out, s)
+		}
+		out = append(out, RawS{T: start + res - 1, V: int64(r.Intn(2001)) - 1000})
+	}
+	return out
 }
 
 // ---- generators ----
